@@ -204,11 +204,40 @@ def d22():
     return ("validity dropped (all True) by " + ", ".join(out)) if out else None
 
 
+def d23():
+    m1 = df.Mesh(p1=(0, 0, 0), p2=(4, 3, 2), n=(4, 3, 2))
+    m2 = df.Mesh(p1=(10, 0, 0), p2=(18, 6, 4), n=(4, 3, 2))
+    f, g = df.Field(m1, nvdim=3, value=(1, 2, 3)), df.Field(m2, nvdim=3, value=(1, 2, 3))
+    try:
+        np.add(f, g)
+    except Exception:
+        return None
+    return "np.add(f, g) accepted although f and g live on different meshes"
+
+
+def d31():
+    import h5py
+    with tempfile.TemporaryDirectory() as d:
+        fn = os.path.join(d, "old.h5")
+        with h5py.File(fn, "w") as h:
+            h.create_dataset("field/mesh/region/p1", data=[0, 0, 0])
+            h.create_dataset("field/mesh/region/p2", data=[4, 2, 1])
+            h.create_dataset("field/mesh/n", data=[4, 2, 1])
+            h.create_dataset("field/dim", data=3)
+            h.create_dataset("field/array", data=np.arange(24.0).reshape(4, 2, 1, 3))
+        try:
+            g = df.Field.from_file(fn)
+        except Exception as e:
+            return f"legacy HDF5 file rejected: {type(e).__name__}"
+        if g.nvdim != 3 or not np.array_equal(g.array, np.arange(24.0).reshape(4, 2, 1, 3)):
+            return "legacy HDF5 file read to the wrong field"
+
+
 ALL = {
     "D1": ("C13", d1), "D2": ("C13", d2), "D3": ("C12", d3), "D4": ("C12", d4),
     "D5": ("C08", d5), "D6": ("C08", d6), "D7": ("C08", d7), "D8": ("C03", d8),
     "D9": ("C03", d9), "D11": ("C02", d11), "D12": ("C10", d12), "D13": ("C10", d13),
-    "D14": ("C09", d14), "D15": ("C09", d15), "D16": ("C11", d16), "D20": ("C19", d20), "D21": ("C13", d21), "D22": ("C08", d22),
+    "D14": ("C09", d14), "D15": ("C09", d15), "D16": ("C11", d16), "D20": ("C19", d20), "D21": ("C13", d21), "D22": ("C08", d22), "D23": ("C03", d23), "D31": ("C10", d31),
 }
 
 
